@@ -168,6 +168,16 @@ impl MultiProgress {
     }
 
     fn internalize(&self, location: InsertLocation, pb: ProgressBar) -> ProgressBar {
+        // A bar that is already a member stays where it is (it used to be given a second slot,
+        // with the first one left behind empty for good).
+        let is_member = matches!(
+            pb.state().draw_target.remote(),
+            Some((state, _)) if Arc::ptr_eq(&self.state, state)
+        );
+        if is_member {
+            return pb;
+        }
+
         let mut state = self.state.write().unwrap();
         let idx = state.insert(location);
         drop(state);
